@@ -19,17 +19,77 @@ import (
 	"github.com/wundergraph/graphql-go-tools/v2/pkg/engine/resolve"
 )
 
-type faultSet map[int]loaderlab.FaultKind
+// fault: a kind, and for FPartial what exactly the subgraph does
+type fault struct {
+	K loaderlab.FaultKind
+	P *loaderlab.Partial
+}
 
-func (fs faultSet) sexp() string {
+func (f fault) String() string {
+	if f.K == loaderlab.FPartial && f.P != nil {
+		return f.P.Name()
+	}
+	return f.K.String()
+}
+
+type faultSet map[int]fault
+
+func one(fid int, k loaderlab.FaultKind) faultSet { return faultSet{fid: fault{K: k}} }
+
+func (fs faultSet) ids() []int {
 	ids := make([]int, 0, len(fs))
 	for id := range fs {
 		ids = append(ids, id)
 	}
 	sort.Ints(ids)
+	return ids
+}
+
+func (fs faultSet) sexp() string {
 	items := []string{"faults"}
-	for _, id := range ids {
+	for _, id := range fs.ids() {
 		items = append(items, common.L(common.I(id), fs[id].String()))
+	}
+	return common.L(items...)
+}
+
+func (fs faultSet) config() loaderlab.RunConfig {
+	cfg := loaderlab.RunConfig{Faults: map[int]loaderlab.FaultKind{}, Partials: map[int]*loaderlab.Partial{}}
+	for id, f := range fs {
+		cfg.Faults[id] = f.K
+		if f.P != nil {
+			cfg.Partials[id] = f.P
+		}
+	}
+	return cfg
+}
+
+// partialsSexp: what the partial-data faults of the run did, for the model (nulls, errors entries) and for the
+// spec (the failed objects of the reference data, as the lab derives them from the request the subgraph saw):
+// (partials (fid (x "f") (proper b) (nulls k..) (errs <json>..) (failed <loc>..)) ..)
+func partialsSexp(p *loaderlab.Plan, fs faultSet, res *loaderlab.Result) string {
+	items := []string{"partials"}
+	for _, id := range fs.ids() {
+		pf := fs[id].P
+		if fs[id].K != loaderlab.FPartial || pf == nil {
+			continue
+		}
+		nulls := []string{"nulls"}
+		errs := []string{"errs"}
+		for _, k := range pf.Idx {
+			if pf.Variant != "nonnull" {
+				nulls = append(nulls, common.I(k))
+			}
+			errs = append(errs, jsonSexpOfText(pf.ErrorEntry(k)))
+		}
+		failed := []string{"failed"}
+		for i := range res.Requests {
+			if res.Requests[i].FetchID == id {
+				failed = append(failed, p.FailedLocs(p.Fetches[id], &res.Requests[i])...)
+			}
+		}
+		items = append(items, common.L(common.I(id), common.L("x", common.QS(pf.Field)), common.L("proper", common.B(pf.Proper())),
+			common.L(nulls...), common.L(errs...), common.L(failed...)))
 	}
 	return common.L(items...)
 }
@@ -81,13 +141,14 @@ func runSexp(p *loaderlab.Plan, fs faultSet, res *loaderlab.Result) string {
 	}
 	return common.L("run", fs.sexp(), common.L("st", status, common.QS(detail)), common.L("out", common.Q(out)), common.L("valid", common.B(o.Valid)),
 		common.L("env", common.B(o.Env)), common.L("nerr", common.I(o.NErr)), common.L(errs...), common.L("data", o.DataSexp), common.L("draw", common.QS(o.DataRaw)), common.L(reqs...),
-		common.L("us", common.I64(res.Elapsed.Microseconds())))
+		common.L("us", common.I64(res.Elapsed.Microseconds())), partialsSexp(p, fs, res))
 }
 
 type planOpts struct {
 	depth                            int
 	requires, nullableReq, errEnts bool
 	chains, depSingles             bool
+	taint, vre                     bool // taint: the generator's Taint option; vre: ResolverOptions.ValidateRequiredExternalFields
 }
 
 func optsFor(r *common.Rand, mode string) planOpts {
@@ -103,6 +164,9 @@ func optsFor(r *common.Rand, mode string) planOpts {
 		o.chains = true
 		o.nullableReq = r.Chance(5, 6)
 		o.depSingles = r.Chance(1, 2)
+	case "taint": // nullable @requires inputs, lists with duplicates / null items, mostly with ValidateRequiredExternalFields
+		o.requires, o.nullableReq, o.errEnts, o.taint = true, true, false, true
+		o.vre = r.Chance(4, 5)
 	}
 	return o
 }
@@ -111,7 +175,7 @@ func makePlan(seed uint64, idx int, mode string) (*loaderlab.Plan, *common.Rand,
 	r := common.NewRand(seed*1000003 + uint64(idx)*7919 + 17)
 	o := optsFor(r, mode)
 	g := &loaderlab.Gen{R: r, Opt: loaderlab.GenOptions{MaxDepth: o.depth, Requires: o.requires, NullableReq: o.nullableReq, ErrEntities: o.errEnts,
-		ReqChains: o.chains, DepSingles: o.depSingles}}
+		ReqChains: o.chains, DepSingles: o.depSingles, Taint: o.taint, UnknownEntities: o.taint && r.Chance(1, 3)}}
 	u := g.Universe()
 	return g.Plan(u), r, o
 }
@@ -161,7 +225,8 @@ func crumb(seed uint64, idx int, mode string, fs faultSet) {
 
 var curMode = "mixed"
 
-func planLine(lab *loaderlab.Lab, p *loaderlab.Plan, r *common.Rand, sets []faultSet, seed uint64, idx int, o planOpts) (string, int) {
+func planLine(lab0 *loaderlab.Lab, p *loaderlab.Plan, r *common.Rand, sets []faultSet, seed uint64, idx int, o planOpts) (string, int) {
+	lab := labFor(lab0, o)
 	answers := map[string]loaderlab.Answer{}
 	var order []string
 	note := func(res *loaderlab.Result) {
@@ -180,7 +245,7 @@ func planLine(lab *loaderlab.Lab, p *loaderlab.Plan, r *common.Rand, sets []faul
 	runs = append(runs, runSexp(p, faultSet{}, base))
 	for _, fs := range sets {
 		crumb(seed, idx, curMode, fs)
-		res := p.Run(lab, loaderlab.RunConfig{Faults: fs})
+		res := p.Run(lab, fs.config())
 		note(res)
 		runs = append(runs, runSexp(p, fs, res))
 	}
@@ -195,11 +260,109 @@ func planLine(lab *loaderlab.Lab, p *loaderlab.Plan, r *common.Rand, sets []faul
 	}
 	meta := common.L("meta", common.I64(int64(seed)), common.I(idx), common.I(o.depth), common.B(o.requires), common.B(o.nullableReq), common.B(o.errEnts), curMode)
 	return common.L("c07", meta, p.Sexp(), common.L("prov", p.ProvSexp(p.Root)), common.L("ref", jsonSexpOfText(p.RefData())),
-		common.L(or...), common.L(runs...)), len(runs) - 1
+		common.L(or...), common.L(runs...), common.L("taint", common.L("vre", common.B(o.vre)), p.CoordsSexp())), len(runs) - 1
+}
+
+// the lab (resolver) for the plan's option set
+var labVRE *loaderlab.Lab
+
+func labFor(lab *loaderlab.Lab, o planOpts) *loaderlab.Lab {
+	if !o.vre {
+		return lab
+	}
+	if labVRE == nil {
+		labVRE = loaderlab.NewLab(resolve.ResolverOptions{ValidateRequiredExternalFields: true})
+	}
+	return labVRE
+}
+
+// taintFaultSets: per fetch that asks for a nullable @requires input (FetchReasons), the partial-data fault at every
+// position of the fault-free request (singly, some pairs, all), the proper path variants and the malformed stream;
+// a few hard faults and combinations beside them
+func taintFaultSets(p *loaderlab.Plan, r *common.Rand, base *loaderlab.Result, tier string) []faultSet {
+	var sets []faultSet
+	var req []int
+	nreps := map[int]int{}
+	for _, rq := range base.Requests {
+		if _, ok := nreps[rq.FetchID]; !ok {
+			req = append(req, rq.FetchID)
+		}
+		nreps[rq.FetchID] = len(rq.Reps)
+	}
+	sort.Ints(req)
+	part := func(fid int, variant, field string, idx ...int) faultSet {
+		return faultSet{fid: fault{K: loaderlab.FPartial, P: &loaderlab.Partial{Variant: variant, Field: field, Idx: idx}}}
+	}
+	var taintable []int
+	for _, fid := range req {
+		f := p.Fetches[fid]
+		if f.Kind == loaderlab.FSingle {
+			continue
+		}
+		var fields []string
+		for _, rs := range f.Reasons {
+			if rs.Nullable {
+				fields = append(fields, rs.Field)
+			}
+		}
+		if len(fields) == 0 {
+			continue
+		}
+		taintable = append(taintable, fid)
+		n := nreps[fid]
+		lim := n
+		if lim > 6 && tier != "thorough" {
+			lim = 6
+		}
+		for _, x := range fields {
+			for k := 0; k < lim; k++ {
+				sets = append(sets, part(fid, "ok", x, k))
+			}
+			if n >= 2 {
+				a := r.Pick(n)
+				b := (a + 1 + r.Pick(n-1)) % n
+				sets = append(sets, part(fid, "ok", x, a, b))
+				all := make([]int, n)
+				for i := range all {
+					all[i] = i
+				}
+				sets = append(sets, part(fid, "ok", x, all...))
+			}
+			if n > 0 {
+				for _, v := range loaderlab.PartialVariants[1:] {
+					sets = append(sets, part(fid, v, x, r.Pick(n)))
+				}
+				sets = append(sets, part(fid, "ok", x, n+r.Pick(3))) // a position the response does not have
+			}
+		}
+	}
+	// hard faults under the option, and combinations with a partial fault
+	for i := 0; i < 6 && len(req) > 0; i++ {
+		fid := common.PickOf(r, req)
+		sets = append(sets, one(fid, pickKind(r, p.Fetches[fid].Kind)))
+	}
+	for i := 0; i < 4 && len(taintable) > 0 && len(req) > 1; i++ {
+		fid := common.PickOf(r, taintable)
+		f := p.Fetches[fid]
+		fs := part(fid, "ok", f.Reasons[0].Field, r.Pick(nreps[fid]+1))
+		other := common.PickOf(r, req)
+		if other != fid {
+			if r.Chance(1, 2) && p.Fetches[other].Kind != loaderlab.FSingle && len(p.Fetches[other].Reasons) > 0 {
+				fs[other] = fault{K: loaderlab.FPartial, P: &loaderlab.Partial{Variant: "ok", Field: p.Fetches[other].Reasons[0].Field, Idx: []int{r.Pick(nreps[other] + 1)}}}
+			} else {
+				fs[other] = fault{K: pickKind(r, p.Fetches[other].Kind)}
+			}
+		}
+		sets = append(sets, fs)
+	}
+	return sets
 }
 
 func requestedFetches(p *loaderlab.Plan, lab *loaderlab.Lab) []int {
-	base := p.Run(lab, loaderlab.RunConfig{})
+	return requestedIn(p.Run(lab, loaderlab.RunConfig{}))
+}
+
+func requestedIn(base *loaderlab.Result) []int {
 	seen := map[int]bool{}
 	var out []int
 	for _, rq := range base.Requests {
@@ -224,7 +387,7 @@ func faultSets(p *loaderlab.Plan, r *common.Rand, req []int, tier string) []faul
 				continue
 			}
 			if k.Applicable(p.Fetches[fid].Kind) {
-				sets = append(sets, faultSet{fid: k})
+				sets = append(sets, one(fid, k))
 			}
 		}
 	}
@@ -240,7 +403,7 @@ func faultSets(p *loaderlab.Plan, r *common.Rand, req []int, tier string) []faul
 			perm := r.Perm(len(req))
 			fs := faultSet{}
 			for _, j := range perm[:k] {
-				fs[req[j]] = pickKind(r, p.Fetches[req[j]].Kind)
+				fs[req[j]] = fault{K: pickKind(r, p.Fetches[req[j]].Kind)}
 			}
 			sets = append(sets, fs)
 		}
@@ -255,7 +418,7 @@ func faultSets(p *loaderlab.Plan, r *common.Rand, req []int, tier string) []faul
 					fs := faultSet{}
 					for j := range req {
 						if mask&(1<<j) != 0 {
-							fs[req[j]] = pickKind(r, p.Fetches[req[j]].Kind)
+							fs[req[j]] = fault{K: pickKind(r, p.Fetches[req[j]].Kind)}
 						}
 					}
 					sets = append(sets, fs)
@@ -281,7 +444,11 @@ func parseFaults(s string) faultSet {
 		if err != nil {
 			continue
 		}
-		fs[id] = loaderlab.FaultKindByName(kv[1])
+		if pf := loaderlab.ParsePartial(kv[1]); pf != nil {
+			fs[id] = fault{K: loaderlab.FPartial, P: pf}
+		} else {
+			fs[id] = fault{K: loaderlab.FaultKindByName(kv[1])}
+		}
 	}
 	return fs
 }
@@ -359,8 +526,13 @@ func main() {
 			p, r, o := makePlan(seed, idx, mode)
 			skipNullEntities = o.nullableReq || o.depSingles // a null entity is no failure: a dependent Single fetch legitimately runs
 			crumb(seed, idx, mode, faultSet{})
-			req := requestedFetches(p, lab)
-			line, k := planLine(lab, p, r, faultSets(p, r, req, tier), seed, idx, o)
+			var sets []faultSet
+			if o.taint {
+				sets = taintFaultSets(p, r, p.Run(labFor(lab, o), loaderlab.RunConfig{}), tier)
+			} else {
+				sets = faultSets(p, r, requestedFetches(p, lab), tier)
+			}
+			line, k := planLine(lab, p, r, sets, seed, idx, o)
 			out.Line(line)
 			total += k
 		}
@@ -396,11 +568,12 @@ func main() {
 		probeNullThenObject(lab, false)
 	case "show":
 		idx := common.ArgInt(a, "idx", 0)
-		p, _, _ := makePlan(seed, idx, mode)
+		p, _, o := makePlan(seed, idx, mode)
 		fmt.Println(p.Sexp())
 		fmt.Println("ref:", p.RefData())
+		fmt.Println("vre:", o.vre, p.CoordsSexp())
 		fs := parseFaults(a["faults"])
-		res := p.Run(lab, loaderlab.RunConfig{Faults: fs})
+		res := p.Run(labFor(lab, o), fs.config())
 		fmt.Printf("out=%s\nerr=%v panic=%q\n", res.Out, res.Err, res.Panic)
 		for _, rq := range res.Requests {
 			fmt.Printf("  req f%d %s fault=%s status=%d\n     in=%s\n     body=%s\n", rq.FetchID, rq.DS, rq.Fault, rq.Status, rq.Input, rq.Body)
